@@ -48,6 +48,8 @@ def check(run):
     cnt = run_driver(run, "atomicvalue-count", [dict(kind="swapchain", threads=8, ops=250, rounds=20 if q else 300),
                                                 dict(kind="casinc", threads=8, ops=2000, rounds=20 if q else 300),
                                                 dict(kind="casinc-refresh", threads=8, ops=2000, rounds=20 if q else 300),
+                                                dict(kind="firststore", threads=3, ops=1, rounds=30000 if q else 400000),
+                                                dict(kind="firststore", threads=8, ops=1, rounds=10000 if q else 100000),
                                                 dict(kind="eqstore", threads=4, ops=20000, rounds=10 if q else 100)])
     hist = hist + [[dict(ev="reset", ty="int"), e] for e in cnt]
     validate(run, "atomics", "RegisterAbsTrace", dict(NT=6), seq + hist, [], plans=None, label="register")
